@@ -46,6 +46,9 @@ def source(enum, variants, rule, tag, content, flavour="plain", spelling="merged
             attrs.append(f"#[serde({', '.join(g)})]")
     body = ""
     for ident, ren, kind in variants:
+        if "@" in kind:          # MC_C02!Marks: a one-directional serde flag on the variant
+            kind, mark = kind.split("@")
+            body += f"    #[serde({mark})]\n"
         if ren is not None:
             body += '    #[serde(rename = "%s")]\n' % ren.replace("\\", "\\\\").replace('"', '\\"')
         if kind == "unit":
@@ -64,7 +67,8 @@ RENAME_TEXT = {"$a_quote_b": '$a"b', "empty": ""}          # constants of MC_C02
 
 
 def case_variants(c):
-    vs = [(c["ident"], None if c["rename"] == "none" else RENAME_TEXT.get(c["rename"], c["rename"]), c["kind"]), ("Other", None, "unit")]
+    vs = [(c["ident"], None if c["rename"] == "none" else RENAME_TEXT.get(c["rename"], c["rename"]), c["kind"] + ("@" + c["mark"] if c.get("mark", "none") != "none" else "")),
+          ("Other", None, "unit")]
     if c["enum"] == "tagged":
         vs.append(("Last", None, "newtype"))
         if c["flavour"].startswith("recursive"):
@@ -160,7 +164,7 @@ def run_batch(chk, batch, judge_now):
                 events.append({"lang": lang.split("+")[0], "enum": enum, "rule": rule, "tag": tag, "content": content,
                                "variants": [{"ident": list(v[0]), "rename": ["<none>"] if v[1] is None else list(v[1])} for v in variants],
                                "wires": [list(w) for w in o["wires"]], "tag_obs": o["tag_obs"], "content_obs": o["content_obs"],
-                               "has_payload": any(v[2] != "unit" for v in variants)})
+                               "has_payload": any(v[2].split("@")[0] != "unit" for v in variants)})
                 meta.append((lang, enum, rule, variants, tag, content, o, desc))
     return events, meta
 
